@@ -292,6 +292,18 @@ def main():
         if not okh:
             broken.append(("harness-build", msgh))
 
+    # ---- which modelled Go functions differ from the reviewed version (informational: directs effort)
+    changed_funcs = []
+    try:
+        base = json.load(open(os.path.join(VERIF, "gen", "model_map.json")))["fingerprints"]
+        cur = {"%s:%s" % (e["file"], e["func"]): e["hash"] for e in json.load(open(os.path.join(WORK, "inventory.json")))["fingerprints"]}
+        changed_funcs = sorted(k for k in base if cur.get(k) != base[k])
+    except (OSError, ValueError, KeyError):
+        pass
+    if changed_funcs and not replay_file and tier == "quick" and cfg["n"]["quick"] > 1:
+        # the source of a modelled function changed: spend more cases on this run
+        cfg = dict(cfg, n=dict(cfg["n"], quick=min(cfg["n"]["quick"] * 3, cfg["n"]["thorough"])))
+
     # ---- proof obligations of this property
     prop_v = os.path.join(COQ, "props", pid + ".v")
     thms = theorems_in(prop_v)
@@ -468,6 +480,7 @@ def main():
             "kernel_reevaluated": kx_n, "kernel_agree": kx_ok,
             "rx_strings_checked": rx_cases, "rx_disagreements": rx_bad,
             "broken": [{"what": w, "detail": d[:600]} for w, d in broken],
+            "modelled_functions_changed_since_review": changed_funcs,
             "exhaustive": bool(cfg.get("exhaustive", False)),
         },
         "assumptions": cfg.get("assumptions", []),
